@@ -17,7 +17,9 @@ EXPLANATION = (
     "server-side retry catches only the provider conflict, is bounded and "
     "re-raises when exhausted, and nothing else in the write path catches; "
     "(R7.5) generation-guarded inventory/trait/aggregate updates increment "
-    "in the scope of their data change. If any of these is missing two "
+    "in the scope of their data change; (R7.8) of two requests racing to "
+    "create one consumer the loser is answered 409 from 1.28 and is never "
+    "told it created the record. If any of these is missing two "
     "concurrent claims can both pass the check and jointly over-commit. "
     "Serializability over schedules itself is not decided.")
 ASSUMPTIONS = ["each transaction is atomic and isolated (serializable DBMS), "
@@ -98,3 +100,8 @@ def run(ctx, R):
     from psa.rules import genstate
     genstate.generation_writers(ctx, R, 'R7.7')
     R.count('R7.6', n, 4)
+    # R7.8: two requests racing to create the same consumer
+    from psa.rules import c06, c12
+    n8 = C.reuse_obligations(ctx, R, c06.r62, 'R7.8')
+    n8 += C.reuse_obligations(ctx, R, c12.r128, 'R7.8')
+    R.count('R7.8', n8, 2)
